@@ -57,17 +57,18 @@ example : (mkSelector true (Spec.list [.cls .int, .tuple [.bad]])).isNone = true
 
 /-- **"with raise_on_error=False an exception inside any leaf counts as not selected instead of
 propagating"** — `Selector(s, raise_on_error=False)` never raises, whatever `s` contains; and when every
-instance inside `s` was built with `raise_on_error=False` too, the result is the boolean semantics `semB`
-in which a raising leaf is `False`. -/
+instance inside `s` was built with `raise_on_error=False` too (and every `SelectContext` key is well formed),
+the result is the boolean semantics `semB` in which a raising leaf is `False`. -/
 theorem selector_absorbs_errors (s : Spec) (v : Item) :
     (∀ i, inner false s = some i → ∃ b, call names (.selector i false) v = .ok b) ∧
-    (s.allRoe false = true → ∀ o, mkSelector false s = some o → call names o v = .ok (semB names s v)) := by
-  refine ⟨fun i _ => ⟨_, by rw [call, absorb_false_ok]⟩, fun ha o ho => ?_⟩
+    (s.allRoe false = true → s.keysOk = true →
+      ∀ o, mkSelector false s = some o → call names o v = .ok (semB names s v)) := by
+  refine ⟨fun i _ => ⟨_, by rw [call, absorb_false_ok]⟩, fun ha hk o ho => ?_⟩
   have hb : s.hasBad = false := by
     cases hb : s.hasBad with
     | false => rfl
     | true => rw [(mkSelector_none s false).2 hb] at ho; cases ho
-  rw [mk_sem names s false o v ho, sem_false names s v ha hb]
+  rw [mk_sem names s false o v ho, sem_false names s v ha hk hb]
 
 /-- a raising callable inside a list inside a tuple, `raise_on_error=False`: the tuple is not selected
 on an `int` (the list is `False`), where the class test alone would select -/
@@ -121,32 +122,50 @@ example : splitDots "a.b.1" = ["a", "b"] ++ ["1"] := by decide
 example : contains ["a", "b"] [some (.dict [none, some (.leaf (.int 1))]), none] "a.b.1" = true := by decide
 
 /-- **"SelectContext … is False when that [the addressed sub-context] is absent"** — whatever the
-predicate (it is not applied) and `raise_on_error`; in particular for a value without context and a
-non-empty key. -/
+predicate (it is not applied) and `raise_on_error`: for a key that resolves to simple keys `ks` (a dotted
+string, a list of strings, a one-key-per-level dictionary) and no sub-context at `ks`; for a key whose last
+level is no string; and for a value without context and a non-empty list of keys. -/
 theorem select_context_absent_false (key : KeyArg) (p : Val → Res) (roe : Bool) (v : Item) :
-    (valAt names (.dict (v.context names.length)) key.keys = none →
+    (∀ ks, key.resolve = .keys ks → valAt names (.dict (v.context names.length)) ks = none →
       call names (.selCtx key p roe) v = .ok false) ∧
-    (v.ctx = none → key.keys ≠ [] → call names (.selCtx key p roe) v = .ok false) := by
-  have h1 : valAt names (.dict (v.context names.length)) key.keys = none →
+    (key.resolve = .never → call names (.selCtx key p roe) v = .ok false) ∧
+    (∀ ks, key.resolve = .keys ks → v.ctx = none → ks ≠ [] → call names (.selCtx key p roe) v = .ok false) := by
+  have h1 : ∀ ks, key.resolve = .keys ks → valAt names (.dict (v.context names.length)) ks = none →
       call names (.selCtx key p roe) v = .ok false := by
-    intro h
-    rw [call, getRecursively, getRecGo_eq_valAt, h]
-  refine ⟨h1, fun hc hk => h1 ?_⟩
-  cases hks : key.keys with
-  | nil => exact absurd hks hk
+    intro ks hr h
+    rw [call_selCtx, selCtxSem, hr]
+    simp only [h]
+  refine ⟨h1, fun hr => by rw [call_selCtx, selCtxSem, hr], fun ks hr hc hk => h1 ks hr ?_⟩
+  cases ks with
+  | nil => exact absurd rfl hk
   | cons k rest => simp [Item.context, hc, valAt, lookupKey_replicate]
 
-example : valAt ["a", "b"] (.dict [some (.leaf (.int 5)), none]) (KeyArg.str "a.b").keys = none := by decide
+example : (KeyArg.str "a.b").resolve = .keys ["a", "b"] ∧
+    valAt ["a", "b"] (.dict [some (.leaf (.int 5)), none]) ["a", "b"] = none := by decide
 
 /-- **"SelectContext applies its predicate to the addressed sub-context"** (with the error handling of
 `Selector`) -/
-theorem select_context_present (key : KeyArg) (p : Val → Res) (roe : Bool) (v : Item) (sub : Val)
-    (h : valAt names (.dict (v.context names.length)) key.keys = some sub) :
+theorem select_context_present (key : KeyArg) (p : Val → Res) (roe : Bool) (v : Item) (ks : List String)
+    (sub : Val) (hr : key.resolve = .keys ks)
+    (h : valAt names (.dict (v.context names.length)) ks = some sub) :
     call names (.selCtx key p roe) v = absorb roe (p sub) := by
-  rw [call, getRecursively, getRecGo_eq_valAt, h]
+  rw [call_selCtx, selCtxSem, hr]
+  simp only [h]
 
-example : valAt ["a", "b"] (.dict [some (.dict [none, some (.leaf (.int 5))]), none]) (KeyArg.str "a.b").keys
-    = some (.leaf (.int 5)) := by decide
+example : (KeyArg.dict ["a"] (.key (some "b"))).resolve = .keys ["a", "b"] ∧
+    valAt ["a", "b"] (.dict [some (.dict [none, some (.leaf (.int 5))]), none]) ["a", "b"]
+      = some (.leaf (.int 5)) := by decide
+
+/-- a malformed key — a dictionary with several keys at some level, a list with an item that is no string —
+makes `SelectContext.__call__` raise (`LenaValueError`, `LenaTypeError`) on every value, whatever its own
+`raise_on_error` is (the error arises before the predicate is tried); an enclosing selector with
+`raise_on_error=False` absorbs it (`selector_absorbs_errors`) -/
+theorem select_context_bad_key (key : KeyArg) (p : Val → Res) (roe : Bool) (v : Item) :
+    (key.resolve = .valueError → call names (.selCtx key p roe) v = .raise "LenaValueError") ∧
+    (key.resolve = .typeError → call names (.selCtx key p roe) v = .raise "LenaTypeError") :=
+  ⟨fun hr => by rw [call_selCtx, selCtxSem, hr], fun hr => by rw [call_selCtx, selCtxSem, hr]⟩
+
+example : (KeyArg.dict ["a"] .multi).resolve = .valueError ∧ KeyArg.badList.resolve = .typeError := by decide
 
 /-- **`Filter.run` in general** — the flow is consumed up to the first value on which the selector raises;
 the selected ones among the values before it are yielded, in order; the exception propagates -/
@@ -215,23 +234,6 @@ theorem make_fuel_suffices :
 /-- the recursive form of the rule is the rule: `sel` computes the polarity of the longest listed prefix -/
 theorem sel_eq_polarity (I E : List Path) (d : Bool) : sel I E d = polarity I E d :=
   funext fun p => sel_eq_polarity' p I E d
-
-/-- `prefixesDesc p` are exactly the non-empty prefixes of `p` … -/
-theorem mem_prefixesDesc (p q : Path) : q ∈ prefixesDesc p ↔ q ≠ [] ∧ q <+: p := by
-  unfold prefixesDesc
-  simp only [List.mem_map, List.mem_reverse, List.mem_range]
-  constructor
-  · rintro ⟨n, hn, rfl⟩
-    refine ⟨?_, List.take_prefix _ _⟩
-    cases p with
-    | nil => simp at hn
-    | cons a t => simp
-  · rintro ⟨hne, hpre⟩
-    have hlen := hpre.length_le
-    have hq : 0 < q.length := List.length_pos_iff.2 hne
-    refine ⟨q.length - 1, by omega, ?_⟩
-    rw [show q.length - 1 + 1 = q.length by omega]
-    exact (List.prefix_iff_eq_take.1 hpre).symm
 
 theorem find?_prefixesDesc (f : Path → Bool) : ∀ (p q : Path), q ≠ [] → q <+: p → f q = true →
     (∀ q', q' ≠ [] → q' <+: p → f q' = true → q'.length ≤ q.length) → (prefixesDesc p).find? f = some q
